@@ -32,13 +32,16 @@ Again ==
     /\ cache' = IF Mut("EvalSharesHeap") THEN cache ELSE <<>>     \* (mutation: the evaluation cache survives the evaluation)
     /\ UNCHANGED <<work, heap, reqsafe, vars>>
 
-\* the user appends an element to a list / sets a new key in a mapping of an EARLIER result
+\* the user mutates EVERY container of an earlier result (appends an element / sets a new key)
+Mutated(h, id) == Len(h[id].ch) > 0 /\ h[id].ch[Len(h[id].ch)][1] = SKey("mutated")
 Mutate ==
     /\ status = "done" /\ results # <<>>
-    /\ \E r \in 1..Len(results) : \E id \in results[r].ids :
-          /\ heap[id].k \in {"list", "bunch"}
-          /\ Len(heap[id].ch) < 3
-          /\ heap' = Append([heap EXCEPT ![id].ch = Append(@, <<SKey("mutated"), Len(heap) + 1>>)], VAtom(Atom("i", "99")))
+    /\ \E r \in 1..Len(results) :
+          LET tgt == {id \in results[r].ids : heap[id].k \in {"list", "bunch"} /\ ~Mutated(heap, id)}
+              new == Len(heap) + 1
+          IN /\ tgt # {}
+             /\ heap' = Append([id \in 1..Len(heap) |-> IF id \in tgt THEN [heap[id] EXCEPT !.ch = Append(@, <<SKey("mutated"), new>>)]
+                                                        ELSE heap[id]], VAtom(Atom("i", "99")))
     /\ UNCHANGED <<work, stack, cache, calls, evlog, reqsafe, status, vars, results>>
 
 MNext == BuildStep \/ StartEval \/ EvalStep \/ Again \/ Mutate
